@@ -35,11 +35,25 @@ def path_grid(ctx, job, box):
     L = run.L
     ss = run.ss
     n_opt = None
-    if op in ('insert_lines', 'delete_lines'):
-        n_opt = sym_opt_u32(ctx, 'a')
-        run.call(op, n_opt)
+    via = job.params.get('via', 'api')
+    if via == 'api':
+        if op in ('insert_lines', 'delete_lines'):
+            n_opt = sym_opt_u32(ctx, 'a')
+            run.call(op, n_opt)
+        else:
+            run.call(op)
     else:
-        run.call(op)
+        # the same operation as the recogniser delivers it
+        if op in ('insert_lines', 'delete_lines'):
+            _, n = feed_csi(run, ctx, 'L' if op == 'insert_lines' else 'M', job.params.get('ndigits', 0))
+            n_opt = some(n)
+        else:
+            seq = {'index': [0x1b, ord('D')], 'reverse_index': [0x1b, ord('M')], 'linefeed': job.params.get('seq', [10])}[op]
+            run.calls.append(('@feed', seq))
+            try:
+                run.ses.feed(Str(tuple(seq)))
+            except Panic as e:
+                run.outcome, run.msg = 'panic', str(e)
     if run.outcome == 'panic':
         return run.panic_check()
     pre, post = run.pre, run.post
@@ -191,6 +205,14 @@ def jobs(tier):
         for op in GRID_OPS:
             js.append(Job('%s/%dx%d' % (op, g[0], g[1]), path_grid, op=op, geom=g, prop=PROP))
     js.append(Job('set_margins/parametric', path_margins, prop=PROP))
+    g = (1, 3)
+    for op in ('index', 'reverse_index'):
+        js.append(Job('parser/%s/1x3' % op, path_grid, op=op, geom=g, via='parser', prop=PROP))
+    for nm, seq in (('LF', [10]), ('VT', [11]), ('FF', [12]), ('NEL', [0x1b, ord('E')])):
+        js.append(Job('parser/linefeed-%s/1x3' % nm, path_grid, op='linefeed', geom=g, via='parser', seq=seq, prop=PROP))
+    for op in ('insert_lines', 'delete_lines'):
+        for nd in (0, 1, 2):
+            js.append(Job('parser/%s/%d/1x3' % (op, nd), path_grid, op=op, geom=g, via='parser', ndigits=nd, prop=PROP))
     return js
 
 
